@@ -728,6 +728,17 @@ def _format_float(value: float) -> str:
     return f"{text}f"
 
 
+def _emit_duration_ms(indent: str, var: str, value: Union[int, float, str]) -> List[str]:
+    """Declare ``unsigned long <var>`` as ``value`` milliseconds; a negative duration counts as zero."""
+
+    if isinstance(value, (int, float)):
+        return [f"{indent}unsigned long {var} = static_cast<unsigned long>({_emit_expr(max(value, 0))});"]
+    return [
+        f"{indent}auto {var}_arg = ({value});",
+        f"{indent}unsigned long {var} = ({var}_arg > 0) ? static_cast<unsigned long>({var}_arg) : 0UL;",
+    ]
+
+
 _BUZZER_MELODIES = {
     "success": {
         "tempo": 240.0,
@@ -2277,7 +2288,7 @@ def _emit_block(
             freq_expr = _emit_expr(node.frequency)
             lines.append(f"{indent}{{")
             lines.append(f"{indent}  float __redu_freq = static_cast<float>({freq_expr});")
-            lines.append(f"{indent}  if (__redu_freq < 0.0f) {{ __redu_freq = 0.0f; }}")
+            lines.append(f"{indent}  if (__redu_freq < 0.5f) {{ __redu_freq = 0.0f; }}")
             lines.append(f"{indent}  if (__redu_freq <= 0.0f) {{")
             lines.append(f"{indent}    {state_var} = false;")
             lines.append(f"{indent}    {current_var} = 0.0f;")
@@ -2290,10 +2301,7 @@ def _emit_block(
             lines.append(f"{indent}    {last_var} = __redu_freq;")
             lines.append(f"{indent}  }}")
             if getattr(node, "duration_ms", None) is not None:
-                duration_expr = _emit_expr(node.duration_ms) if node.duration_ms is not None else "0"
-                lines.append(
-                    f"{indent}  unsigned long __redu_duration = static_cast<unsigned long>({duration_expr});"
-                )
+                lines.extend(_emit_duration_ms(f"{indent}  ", "__redu_duration", node.duration_ms))
                 lines.append(f"{indent}  if (__redu_duration > 0UL) {{")
                 lines.append(f"{indent}    delay(__redu_duration);")
                 lines.append(f"{indent}  }}")
@@ -2320,13 +2328,9 @@ def _emit_block(
                 lines.append(f"{indent}  float __redu_freq_target = static_cast<float>({freq_expr});")
             else:
                 lines.append(f"{indent}  float __redu_freq_target = {last_var};")
-            lines.append(f"{indent}  if (__redu_freq_target < 0.0f) {{ __redu_freq_target = 0.0f; }}")
-            lines.append(
-                f"{indent}  unsigned long __redu_on_ms = static_cast<unsigned long>({_emit_expr(node.on_ms)});"
-            )
-            lines.append(
-                f"{indent}  unsigned long __redu_off_ms = static_cast<unsigned long>({_emit_expr(node.off_ms)});"
-            )
+            lines.append(f"{indent}  if (__redu_freq_target < 0.5f) {{ __redu_freq_target = 0.0f; }}")
+            lines.extend(_emit_duration_ms(f"{indent}  ", "__redu_on_ms", node.on_ms))
+            lines.extend(_emit_duration_ms(f"{indent}  ", "__redu_off_ms", node.off_ms))
             lines.append(f"{indent}  int __redu_times = static_cast<int>({_emit_expr(node.times)});")
             lines.append(f"{indent}  if (__redu_times < 0) {{ __redu_times = 0; }}")
             lines.append(f"{indent}  for (int __redu_i = 0; __redu_i < __redu_times; ++__redu_i) {{")
@@ -2349,6 +2353,9 @@ def _emit_block(
             lines.append(f"{indent}      delay(__redu_off_ms);")
             lines.append(f"{indent}    }}")
             lines.append(f"{indent}  }}")
+            lines.append(f"{indent}  noTone({pin_code});")
+            lines.append(f"{indent}  {state_var} = false;")
+            lines.append(f"{indent}  {current_var} = 0.0f;")
             lines.append(f"{indent}}}")
             continue
 
@@ -2356,25 +2363,24 @@ def _emit_block(
             pin_code, state_var, current_var, last_var = _ensure_buzzer_tracking(node.name)
             start_expr = _emit_expr(node.start_hz)
             end_expr = _emit_expr(node.end_hz)
-            duration_expr = _emit_expr(node.duration_ms)
             steps_expr = _emit_expr(node.steps)
             lines.append(f"{indent}{{")
             lines.append(f"{indent}  float __redu_start = static_cast<float>({start_expr});")
             lines.append(f"{indent}  if (__redu_start < 0.0f) {{ __redu_start = 0.0f; }}")
             lines.append(f"{indent}  float __redu_end = static_cast<float>({end_expr});")
             lines.append(f"{indent}  if (__redu_end < 0.0f) {{ __redu_end = 0.0f; }}")
-            lines.append(f"{indent}  unsigned long __redu_total = static_cast<unsigned long>({duration_expr});")
+            lines.extend(_emit_duration_ms(f"{indent}  ", "__redu_total", node.duration_ms))
             lines.append(f"{indent}  int __redu_steps = static_cast<int>({steps_expr});")
             lines.append(f"{indent}  if (__redu_steps < 1) {{ __redu_steps = 1; }}")
             lines.append(
-                f"{indent}  float __redu_step_delay = (__redu_steps > 0) ? (static_cast<float>(__redu_total) / static_cast<float>(__redu_steps)) : 0.0f;"
+                f"{indent}  unsigned long __redu_step_delay = __redu_total / static_cast<unsigned long>(__redu_steps);"
             )
             lines.append(f"{indent}  for (int __redu_i = 0; __redu_i < __redu_steps; ++__redu_i) {{")
             lines.append(
                 f"{indent}    float __redu_progress = (__redu_steps == 1) ? 1.0f : (static_cast<float>(__redu_i) / (static_cast<float>(__redu_steps) - 1.0f));"
             )
             lines.append(f"{indent}    float __redu_freq = __redu_start + (__redu_end - __redu_start) * __redu_progress;")
-            lines.append(f"{indent}    if (__redu_freq < 0.0f) {{ __redu_freq = 0.0f; }}")
+            lines.append(f"{indent}    if (__redu_freq < 0.5f) {{ __redu_freq = 0.0f; }}")
             lines.append(f"{indent}    if (__redu_freq > 0.0f) {{")
             lines.append(f"{indent}      unsigned int __redu_tone = static_cast<unsigned int>(__redu_freq + 0.5f);")
             lines.append(f"{indent}      tone({pin_code}, __redu_tone);")
@@ -2386,8 +2392,8 @@ def _emit_block(
             lines.append(f"{indent}      {state_var} = false;")
             lines.append(f"{indent}      {current_var} = 0.0f;")
             lines.append(f"{indent}    }}")
-            lines.append(f"{indent}    if (__redu_step_delay > 0.0f) {{")
-            lines.append(f"{indent}      delay(static_cast<unsigned long>(__redu_step_delay));")
+            lines.append(f"{indent}    if (__redu_step_delay > 0UL) {{")
+            lines.append(f"{indent}      delay(__redu_step_delay);")
             lines.append(f"{indent}    }}")
             lines.append(f"{indent}  }}")
             lines.append(f"{indent}  noTone({pin_code});")
